@@ -1001,11 +1001,111 @@ def sx_divmod(x, c):
     return q, r
 
 
+class XorInt(SymInt):
+    """xor of byte-sized symbolic operands kept as an operand multiset (mod 2) plus a constant;
+    the bit-level z3 term is only built when something other than xor / equality needs it"""
+    __slots__ = ('ops', 'const', '_term', 'width')
+
+    def __init__(self, ops, const, width):
+        # canonical: cancel duplicate operands, sort by term id
+        seen = {}
+        for o in ops:
+            k = o.t.get_id()
+            if k in seen:
+                del seen[k]
+            else:
+                seen[k] = o
+        self.ops = [seen[k] for k in sorted(seen)]
+        self.const = const
+        self.width = width
+        self._term = None
+        self.lo = 0
+        self.hi = (1 << width) - 1
+
+    @property
+    def t(self):
+        if self._term is None:
+            acc = self.const
+            for o in self.ops:
+                acc = _bitwise_full('xor', o, acc) if isinstance(acc, SymInt) else \
+                    (_bitwise_full('xor', o, SymInt(z3.IntVal(acc), acc, acc)) if acc else o)
+            self._term = term_of(acc)
+        return self._term
+
+    @t.setter
+    def t(self, v):
+        self._term = v
+
+    def key(self):
+        return (tuple(o.t.get_id() for o in self.ops), self.const)
+
+    def _same_operands(self, o):
+        """the operand multisets are pairwise provably equal (cheap validity queries) -> equal values"""
+        if not isinstance(o, XorInt) or self.const != o.const or len(self.ops) != len(o.ops):
+            return False
+        if self.key() == o.key():
+            return True
+        cx = ctx()
+        rest = list(o.ops)
+        for a in self.ops:
+            hit = None
+            for j, b in enumerate(rest):
+                if a.t.eq(b.t):
+                    hit = j
+                    break
+            if hit is None:
+                for j, b in enumerate(rest):
+                    r, _ = cx.check_valid(a.t == b.t)
+                    if r == 'unsat':
+                        hit = j
+                        break
+            if hit is None:
+                return False
+            rest.pop(hit)
+        return True
+
+    def __eq__(self, o):
+        if self._same_operands(o):
+            return True
+        return SymInt.__eq__(self, o)
+
+    def __ne__(self, o):
+        if self._same_operands(o):
+            return False
+        return SymInt.__ne__(self, o)
+
+    __hash__ = SymInt.__hash__
+
+
+def _xor_operands(x):
+    if isinstance(x, XorInt):
+        return list(x.ops), x.const
+    if isinstance(x, SymInt):
+        return [x], 0
+    return [], int(x)
+
+
 def sx_bitop(op, a, b):
     """and/or/xor where one operand is a non-negative constant of the form used
     for masks; general case forks over the bits of the smaller operand range."""
     if isinstance(a, int) and isinstance(b, int):
         return {'and': a & b, 'or': a | b, 'xor': a ^ b}[op]
+    if op == 'xor' and isinstance(a, (int, SymInt)) and isinstance(b, (int, SymInt)) \
+            and not isinstance(a, bool) and not isinstance(b, bool):
+        alo, ahi = bounds_of(a)
+        blo, bhi = bounds_of(b)
+        if alo >= 0 and blo >= 0 and ahi != INF and bhi != INF and \
+                (isinstance(a, SymInt) and isinstance(b, SymInt) or isinstance(a, XorInt) or isinstance(b, XorInt)):
+            width = max(int(ahi).bit_length(), int(bhi).bit_length())
+            if width <= 64:
+                oa, ca = _xor_operands(a)
+                ob, cb = _xor_operands(b)
+                r = XorInt(oa + ob, ca ^ cb, width)
+                if not r.ops:
+                    return r.const
+                if len(r.ops) == 1 and r.const == 0:
+                    return r.ops[0]
+                return r
     if isinstance(a, SymBool):
         a = a._as_int()
     if isinstance(b, SymBool):
